@@ -11,7 +11,7 @@ use std::collections::BTreeSet;
 
 pub struct MatchProp;
 
-pub const PATTERNS: [&str; 27] = [
+pub const PATTERNS: [&str; 30] = [
     "(u ?a)",
     "(b ?a ?b)",
     "(b ?a ?a)",
@@ -40,9 +40,12 @@ pub const PATTERNS: [&str; 27] = [
     "(case ?s $0 ?a $1 ?b)",
     "(case ?s $0 (h $0) $1 ?b)",
     "(case (var $2) $0 (f $0 $2) $1 ?b)",
+    "(s 2 ?a)",
+    "(s 3 (var $0))",
+    "(b 1 ?a)",
 ];
 
-pub const MULTI: [&str; 24] = [
+pub const MULTI: [&str; 28] = [
     "?s == (b ?a ?c), ?a == (var $0), ?c == (var $1)",
     "?a == (var $0), ?c == (var $1), ?s == (b ?a ?c)",
     "?s == (b ?a ?c), ?a == (h $0), ?c == (f $1 $0)",
@@ -71,6 +74,11 @@ pub const MULTI: [&str; 24] = [
     "?a == (var $0), ?b == (u ?z), ?o == (k ?z ?a ?w)",
     "?b == (u ?z), ?a == (var $0), ?o == (k ?a ?z ?w)",
     "?x == (case ?s $0 ?a $1 ?b), ?a == (h $0)",
+    // operators with a payload: a payload leaf and a payload next to a child
+    "?a == 1, ?o == (b ?a ?c)",
+    "?o == (s 2 ?a), ?a == 1",
+    "?o == (s 3 ?a), ?a == (var $0)",
+    "?c == 2, ?o == (b ?a ?c), ?p == (s 2 ?c)",
 ];
 
 fn spaces(tier: Tier) -> Vec<Space> {
@@ -91,6 +99,8 @@ fn spaces(tier: Tier) -> Vec<Space> {
             Space { alpha: "TERN", depth: 3 },
             Space { alpha: "CASE", depth: 2 },
             Space { alpha: "CASE", depth: 3 },
+            Space { alpha: "PAY", depth: 2 },
+            Space { alpha: "PAY", depth: 3 },
             Space { alpha: "CASC", depth: 2 },
             Space { alpha: "CASC", depth: 3 },
             Space { alpha: "MICRO", depth: 3 },
@@ -114,6 +124,8 @@ fn spaces(tier: Tier) -> Vec<Space> {
             Space { alpha: "TERN", depth: 3 },
             Space { alpha: "CASE", depth: 2 },
             Space { alpha: "CASE", depth: 3 },
+            Space { alpha: "PAY", depth: 2 },
+            Space { alpha: "PAY", depth: 3 },
             Space { alpha: "CASC", depth: 2 },
             Space { alpha: "CASC", depth: 3 },
             Space { alpha: "CORE", depth: 3 },
@@ -555,7 +567,7 @@ impl Prop for MatchProp {
         let gen_level = gen_level_for(tier, &segs[seg].seg.name);
         // the small interaction-rich alphabets a second time on an e-graph with an analysis attached (hand-picked pools only)
         let segname = segs[seg].seg.name.clone();
-        let analysis_too = ["MICRO", "SHARE", "SAME", "CASC", "TERN", "CASE"].iter().any(|p| segname.starts_with(p));
+        let analysis_too = ["MICRO", "SHARE", "SAME", "CASC", "TERN", "CASE", "PAY"].iter().any(|p| segname.starts_with(p));
         for (hist, pass) in variants(&ops, Flips::None).into_iter().flat_map(|h| if analysis_too { vec![(h.clone(), 0), (h, 1)] } else { vec![(h, 0)] }) {
             let h2 = hist.clone();
             out.traces += 1;
